@@ -39,7 +39,9 @@ def main():
                     'small and look like an honest mistake, and it must break the property as stated (not merely some other behaviour).'
             wt = '/tmp/wt%s-%s' % (n, prop)
             p = P[prop]
-            text = tmpl.format(wt=wt, id=prop, n=n, title=p.get('title', ''), statement=p.get('statement') or p.get('text'),
+            scratch = '/tmp/agentwork/%s-%s' % (n, prop)
+            os.makedirs(scratch, exist_ok=True)
+            text = tmpl.format(wt=wt, scratch=scratch, id=prop, n=n, title=p.get('title', ''), statement=p.get('statement') or p.get('text'),
                                quant=p.get('quantifier', ''), extra=extra)
             open('/tmp/agent_prompt%s_%s.txt' % (n, prop), 'w').write(text)
             if not os.path.isdir(wt):
